@@ -1,6 +1,7 @@
 """C10 - absence is dead time: no work, no cost, and it only stretches the schedule."""
 from .. import director as D
 from .. import scen
+from .. import gen as G
 from . import c02
 from . import common as C
 from .common import NONE, READY, WORKING, FINISHED, SNAME, Static, TOL
@@ -24,7 +25,7 @@ LEVEL_TEXT = ("Seeded stall-fault injection: the live state is checked at every 
 LEVEL_NOTE = "Trusted: harness observers, dump comparison; sampling evidence only."
 PROBES = ["absence_step_with_working_task", "absence_at_step_0", "consecutive_absence", "fault.absence_beyond_end",
           "auto_progress_in_absence", "auto_frozen_in_absence", "individual_absence_on_holder", "twin_compared",
-          "twin_with_beyond_end", "twin_cut_off_by_max_time", "backward_runs", "random_progress_twin"]
+          "twin_with_beyond_end", "twin_cut_off_by_max_time", "backward_runs", "random_progress_twin", "only_facilities_have_absence_lists"]
 
 
 def budget(tier):
@@ -43,7 +44,19 @@ def gen(rng, tier):
     random_twin = twin and rng.random() < 0.12
     if random_twin:
         focus.update(comps=True, auto=False, sd_zero=False)
+    only_fac = (not twin) and rng.random() < 0.12
+    if only_fac:
+        focus.update(proj_abs=False, res_abs=True, comps=True, facilities=True)
     spec = C.forward_spec(rng, tier, focus)
+    if only_fac:
+        # the only absence information of the whole run is in the facilities' own lists
+        for tm in spec["model"]["teams"]:
+            for w in tm["workers"]:
+                w.pop("abs", None)
+        for wp in spec["model"]["wps"]:
+            for f in wp["facs"]:
+                if not f.get("abs") and rng.random() < 0.6:
+                    f["abs"] = G.gen_absence(rng, 10, rng.randint(1, 4))
     if twin and rng.random() < 0.6 and not random_twin:
         spec["cfg"]["auto_flag"] = False
     if random_twin:
@@ -296,5 +309,10 @@ def run(spec):
                     res.add("twin", "C10.twin_differs." + cause,
                             "simulate(absence=%s)+remove_absence_time_list() differs from simulate() in %s; first at %s: %r vs %r"
                             % (L, sorted(attrs), diff[0], diff[1], diff[2]), None)
+    if not tr.absence and any(f.get("abs") for wp in tr.model["wps"] for f in wp["facs"]) \
+            and not any(w.get("abs") for tm in tr.model["teams"] for w in tm["workers"]):
+        res.count("only_facilities_have_absence_lists")
+        nt = nt or any(st_.f_absent(f_, s.t) and s.ph.get("recorded") is not None and s.ph["recorded"]["F"][f_][1]
+                       for st_ in [Static(tr.model)] for s in tr.rec.steps for f_ in st_.fac)
     res.nontrivial = bool(nt)
     return C.finish(res, tr)
